@@ -22,6 +22,13 @@ Definition seed_flags : N := 0.
 Definition log_flags : N := 1.
 Definition sock_flags : N := 0.
 Definition pid_flags : N := 0.
+(* does the directory walk of each site run: (when nothing is at the file's name, when a file is there
+   already) - observed on starts over fresh names and over occupied ones *)
+Definition key_walk : bool * bool := (true, true).
+Definition seed_walk : bool * bool := (true, true).
+Definition log_walk : bool * bool := (true, true).
+Definition sock_walk : bool * bool := (true, true).
+Definition pid_walk : bool * bool := (true, true).
 (* does _random_read_seed open the seed with O_NONBLOCK (a FIFO in its place cannot block the start) *)
 Definition seed_open_nonblock : bool := false.
 (* recipe of each created file: (requested mode, keep, or, final chmod); the umask in force at the
